@@ -45,6 +45,7 @@ def jobs(tier, seed):
     J += [j for j in mjobs.sendquery_jobs(tier) if "srv1" in j["name"] and ("_sib1" in j["name"] or "ex0" in j["name"] or j["name"].endswith("_pre"))]
     J += mjobs.requeue_jobs(tier)
     J += mjobs.close_jobs(tier)
+    J += mjobs.destroy_jobs(tier)
     J += mjobs.readanswers_jobs(tier)
     J += mjobs.flush_jobs(tier)
     return J
